@@ -136,6 +136,33 @@ def outer(x: FLOAT[3]) -> FLOAT[3]:
 @script(default_opset=op)
 def only_custom(x: FLOAT[3]) -> FLOAT[3]:
     return inner_domain.Foo(x)
+
+# four custom domains of which three are reached only TRANSITIVELY (through mid): the order of the model's opset imports and
+# functions must not depend on set iteration order (session 6, seeded C14-m11)
+d_alpha = values.Opset("c14.alpha", 1)
+d_beta = values.Opset("c14.beta", 1)
+d_gamma = values.Opset("c14.gamma", 1)
+d_delta = values.Opset("c14.delta", 1)
+
+@script(d_beta)
+def leaf_b(x):
+    return op.Relu(x)
+
+@script(d_gamma)
+def leaf_g(x):
+    return op.Neg(x)
+
+@script(d_delta)
+def leaf_d(x):
+    return op.Abs(x)
+
+@script(d_alpha)
+def mid(x):
+    return leaf_d(leaf_g(leaf_b(x)))
+
+@script()
+def chain(x: FLOAT[3]) -> FLOAT[3]:
+    return mid(x)
 ''',
     # refused inside an if-branch nested in a loop, after nodes were emitted and scopes were opened
     "c14s_bad1": '''
@@ -907,6 +934,7 @@ def _proto_outer(P, version):
     _ev(P, "ensured")
     _ev(P, "toproto_pure", "outer")
     a = _protos(P, m.outer)                          # function proto before/after model proto, model proto three times
+    a += b"|" + _protos(P, m.chain)
     _ev(P, "toproto_ver", str(version))
     g0 = _ser(m.only_custom.to_function_proto())
     b = _ser(m.only_custom.to_model_proto(opset_version=version))
